@@ -208,6 +208,10 @@ pub fn is_arithmetic(line: &str) -> bool {
 }
 
 pub fn create_raw_fd_from_file(file_name: &str, append: bool) -> Result<i32, String> {
+    #[cfg(cicada_verif)]
+    if let Some(e) = crate::verif::open_hook(file_name) {
+        return Err(crate::verif::errno_text(e));
+    }
     let mut oos = OpenOptions::new();
     if append {
         oos.append(true);
@@ -225,6 +229,11 @@ pub fn create_raw_fd_from_file(file_name: &str, append: bool) -> Result<i32, Str
 }
 
 pub fn get_fd_from_file(file_name: &str) -> i32 {
+    #[cfg(cicada_verif)]
+    if let Some(e) = crate::verif::open_hook(file_name) {
+        println_stderr!("cicada: {}: {}", file_name, crate::verif::errno_text(e));
+        return -1;
+    }
     let path = Path::new(file_name);
     let display = path.display();
     let file = match File::open(path) {
